@@ -1053,3 +1053,13 @@ def fmt(e, fn=None, depth=0):
     if k == "as":
         return "%s as %s" % (f(e[1]), e[2])
     return "%s(…)" % k
+
+
+def checked_sub_payload(e):
+    """(a, b) if e is the `Some` payload of `a.checked_sub(b)` (= a - b exactly, since it exists)"""
+    e = strip_casts(e)
+    if isinstance(e, tuple) and len(e) == 3 and e[0] == "field" and e[2] in (0, "0") and isinstance(e[1], tuple) and len(e[1]) == 3 and e[1][0] == "as" and e[1][2] == "Some":
+        x = strip_casts(e[1][1])
+        if isinstance(x, tuple) and len(x) >= 3 and x[0] in ("call", "pcall") and str(x[1]).endswith("<usize>::checked_sub") and len(x[2]) == 2:
+            return x[2][0], x[2][1]
+    return None
